@@ -227,12 +227,12 @@ def tbBatch (reserve : Int) : Int :=
   let b := i32div (i32mul reserve globalTokenBucketBatchAcquiredPercent) 100
   if b < globalTokenBucketBatchAcquireMin then globalTokenBucketBatchAcquireMin else b
 
-/-- `tokenBucketWrapper.Resize(qps, burst uint32)` (note `m.burst = qps`, as in the source) -/
+/-- `tokenBucketWrapper.Resize(qps, burst uint32)` -/
 def TBW.resize (w : TBW) (qps burst : Int) : TBW × Bool :=
   let reserve := tbReserve qps
   let overflow := i32sub w.tokens reserve
   let tokens := if overflow > 0 then i32add w.tokens (toI32 (-overflow)) else w.tokens
-  let w := { w with reserve := reserve, tokens := tokens, tokenBatch := tbBatch reserve, qps := qps, burst := qps }
+  let w := { w with reserve := reserve, tokens := tokens, tokenBatch := tbBatch reserve, qps := qps, burst := burst }
   if !w.unavail then
     let r := w.inner.resize qps burst
     ({ w with inner := r.1 }, r.2)
@@ -307,7 +307,9 @@ def TBW.setLimit (w : TBW) (loc : Schema) (m : Meter) (r : Reply) : Except Strin
             (if lt.qps > w.qps then w.qps else toU32 lt.qps)
           else if m.rateNum > w.qps * m.rateDen then w.qps
           else rateToU32 m.rateNum m.rateDen
-        let w := { w with inner := (w.inner.resize q q).1, unavail := true }
+        -- degradedBurst := min(uint32(lastQPS), m.burst)
+        let b : Int := if q > w.burst then w.burst else q
+        let w := { w with inner := (w.inner.resize q b).1, unavail := true }
         .ok (w, w.expectMore)
     else .ok (w, w.expectMore)
   | .none =>
@@ -525,6 +527,7 @@ def step (st : State) : Op → Except String State
     | some c =>
       if !named then .ok st
       else if !enableGlobal c.loc.config then .ok st
+      else if itemType item ≠ guessType c.loc.config then .ok st   -- flowcontrol_type_mismatch
       else
         match cacheRemoteSync c item with
         | .error e => .error e
